@@ -101,6 +101,12 @@ pub enum Op {
     /// `requirements().require` (1), `contains_at_top` (2), `find` (3) - a borrow does not make
     /// a state absent
     PresentWhileBorrowedMut(u8, u8),
+    /// set (or create in the top scope) the float-valued state `F0`; the value is given as bits
+    /// (NaN and infinities survive the replay file)
+    SetFloat(u64),
+    /// the caller's population stack holds one population with one evaluated individual of this
+    /// value (or is empty): conditions about the *recorded* best do not look at it
+    SetPopulation(Option<f64>),
     /// `best_objective_value()` / `best_individual()` while a shared guard on the best-individual
     /// memory is alive: readers next to readers are never refused
     BestWhileShared,
@@ -335,6 +341,13 @@ impl Model {
                     Ret::NotFound
                 }
             }
+            Op::SetPopulation(_) => Ret::Unit,
+            Op::SetFloat(bits) => {
+                if self.set(TAG_F0, *bits).is_none() {
+                    self.top().insert(TAG_F0, *bits);
+                }
+                Ret::Unit
+            }
             Op::BestWhileShared => match self.get(TAG_BEST) {
                 Some(bits) if bits != NONE => Ret::Opt(Some(bits)),
                 _ => Ret::Opt(None),
@@ -425,6 +438,16 @@ pub fn dump_top(reg: &StateRegistry<'static>) -> BTreeMap<u8, u64> {
                 }
             }
         });
+    }
+    if reg.contains_at_top::<F0>() {
+        if let Ok(v) = reg.try_get_value::<F0>() {
+            m.insert(TAG_F0, v.to_bits());
+        }
+    }
+    if reg.contains_at_top::<Progress<ValueOf<F0>>>() {
+        if let Ok(v) = reg.try_get_value::<Progress<ValueOf<F0>>>() {
+            m.insert(tag_progress(TAG_F0), v.to_bits());
+        }
     }
     if reg.contains_at_top::<Progress<ValueOf<Iterations>>>() {
         if let Ok(v) = reg.try_get_value::<Progress<ValueOf<Iterations>>>() {
@@ -661,6 +684,22 @@ pub fn apply_real(op: &Op, st: &mut St) -> Ret {
                 }
             }
         }),
+        Op::SetFloat(bits) => {
+            if st.contains::<F0>() {
+                st.set_value::<F0>(f64::from_bits(*bits));
+            } else {
+                st.insert(F0(f64::from_bits(*bits)));
+            }
+            Ret::Unit
+        }
+        Op::SetPopulation(v) => {
+            let mut pops = mahf::state::common::Populations::<EP>::new();
+            if let Some(x) = v {
+                pops.push(vec![Individual::<EP>::new(Vec::new(), SingleObjective::try_from(*x).expect("harness: valid objective"))]);
+            }
+            st.insert(pops);
+            Ret::Unit
+        }
         Op::BestWhileShared => {
             let ask = |st: &St| match guarded(|| {
                 let via_value = st.best_objective_value().map(|o| o.value().to_bits());
